@@ -752,7 +752,7 @@ def r199(ctx):
             sel = []
             for x in walk_local(f):
                 # (a) enumerate(...) index compared with idx
-                if isinstance(x, ast.Compare) and len(x.ops) == 1 and isinstance(x.ops[0], ast.Eq):
+                if isinstance(x, ast.Compare) and len(x.ops) == 1 and isinstance(x.ops[0], (ast.Eq, ast.NotEq)):
                     sides = [x.left, x.comparators[0]]
                     if any(isinstance(s_, ast.Name) and s_.id == idx for s_ in sides) or any(idx in ast.unparse(s_) for s_ in sides):
                         other = [s_ for s_ in sides if not (isinstance(s_, ast.Name) and s_.id == idx)]
@@ -773,7 +773,11 @@ def r199(ctx):
                     L = next((p for p in loops_of(node) if isinstance(p, ast.For)), None)
                     ok_ = (isinstance(e, ast.Name) and L is not None and isinstance(L.iter, ast.Call) and last_name(L.iter) == "enumerate" and len(L.iter.args) == 1
                            and isinstance(L.target, ast.Tuple) and isinstance(L.target.elts[0], ast.Name) and L.target.elts[0].id == e.id
-                           and ast.unparse(node) in (f"{e.id} == {idx}", f"{idx} == {e.id}"))
+                           and ast.unparse(node) in (f"{e.id} == {idx}", f"{idx} == {e.id}", f"{e.id} != {idx}", f"{idx} != {e.id}"))
+                    if ok_ and isinstance(node.ops[0], ast.NotEq):
+                        # guard-clause form: `if i != idx: continue` - the other frames are skipped, the rest of the body handles frame idx
+                        st_ = getattr(node, "_parent", None)
+                        ok_ = isinstance(st_, ast.If) and st_.test is node and len(st_.body) == 1 and isinstance(st_.body[0], ast.Continue) and not st_.orelse
                 else:
                     ok_ = isinstance(e, ast.Name) and e.id == idx and not any(isinstance(d.stmt, (ast.Assign, ast.AugAssign)) for d, _ in fl.rd(idx, fl.cfg.node_of(node)))
                 if ok_:
@@ -947,6 +951,37 @@ def r1912(ctx):
             ctx.bad(rid, n, "the replacement of a template line in _modify_input is not guarded by `key in settings`", construct="_modify_input: replacement guard")
 
 
+def r1914(ctx):
+    """The .lammpstrj box block is read whole. write_lammpstrj writes every column of each box
+    row (`" ".join(...)` over the row: lo hi, and the tilt factor of a triclinic cell), so the
+    reader returns what one table read of the three box rows delivers - no column selection
+    (`usecols`) in that read and no column slice on the way to the return."""
+    rid = "R-19.14"
+    tree = ctx.tree
+    rl = tree.func(LAMMPS, "read_lammpstrj")
+    fl = flow_of(rl)
+    rets = [r for r in walk_local(rl) if isinstance(r, ast.Return) and isinstance(r.value, ast.Tuple) and len(r.value.elts) == 4]
+    if not rets:
+        raise AnalysisError("R-19.14: read_lammpstrj does not return (id_type, pos, vel, box)")
+    wl = tree.func(LAMMPS, "write_lammpstrj")
+    whole_rows = any(isinstance(c, ast.Call) and isinstance(c.func, ast.Attribute) and c.func.attr == "join" for c in walk_local(wl))
+    if not whole_rows:
+        raise AnalysisError("R-19.14: write_lammpstrj does not write whole box rows with join() any more (cannot decide)")
+    for r in rets:
+        e = r.value.elts[3]
+        e2, _ = deref(fl, e, fl.cfg.node_of(r))
+        if isinstance(e2, ast.Subscript):
+            ctx.bad(rid, r, f"read_lammpstrj returns a part of the box block (`{short(e2, 40)}`): the writer writes whole rows, so columns of a row (the tilt factor of a triclinic cell) are lost in a read / write cycle", construct="read_lammpstrj: box sliced")
+            continue
+        if not (isinstance(e2, ast.Call) and last_name(e2) in ("genfromtxt", "loadtxt")):
+            raise AnalysisError(f"R-19.14: the box returned by read_lammpstrj is `{short(e2, 40)}`, not a table read (cannot decide)")
+        uc = kwarg(e2, "usecols")
+        if uc is not None and not (isinstance(uc, ast.Constant) and uc.value is None):
+            ctx.bad(rid, e2, f"read_lammpstrj reads only the columns {short(uc, 20)} of the box block: the third column of a triclinic `BOX BOUNDS xy xz yz` block (the tilt factors) is dropped, and every frame written back by write_lammpstrj (_extract_frame, velocity reversal) has an orthogonal bounding-box cell - reversing velocities changes the box", construct=f"read_lammpstrj: box read with usecols={short(uc, 20)}")
+        else:
+            ctx.ok(rid, e2, "read_lammpstrj returns the whole box block (every column of the three rows)")
+
+
 def run(ctx):
     ctx.rule("R-19.6", "the flattened box matrix has the element order of the g96 BOX record (folded from the source, comprehensions included)", floor=1)
     ctx.rule("R-19.10", "input-template editing: writer and reader split `key <delim> value` with the same regular expression, whose key group is lazy (regex syntax trees compared)", floor=3)
@@ -961,6 +996,8 @@ def run(ctx):
     for r in (r191, r192, r193, r194, r195, r196):
         ctx.attempt(r, ctx)
     ctx.attempt(r199, ctx)
+    ctx.rule("R-19.14", "the .lammpstrj box block is read whole (no column selection between the table read and the return): the writer writes whole rows", floor=1)
+    ctx.attempt(r1914, ctx)
     ctx.attempt(r1910, ctx)
     ctx.rule("R-19.11", "editing a CP2K section is local: one line out per line in, unaddressed lines kept, the rebuilt list stored as a plain copy", floor=2)
     ctx.attempt(r1911, ctx)
@@ -980,6 +1017,9 @@ def run(ctx):
 
 
 VARIANTS = [
+    B("c19-lammps-box-two-columns", LAMMPS, "    box = np.genfromtxt(infile, skip_header=block_size * frame + 5, max_rows=3)", "    box = np.genfromtxt(infile, skip_header=block_size * frame + 5, max_rows=3, usecols=(0, 1))", "R-19.14", control=True, why="seeded C19_j"),
+    B("c19-lammps-box-sliced", LAMMPS, "    return id_type, pos, vel, box\n", "    return id_type, pos, vel, box[:, :2]\n", "R-19.14"),
+    K("c19-keep-lammps-box-offset-local", LAMMPS, "    box = np.genfromtxt(infile, skip_header=block_size * frame + 5, max_rows=3)", "    start = block_size * frame\n    box = np.genfromtxt(infile, skip_header=start + 5, max_rows=3)"),
     B("c19-append-flag-slipped-to-step", CP2K, "                write_xyz_trajectory(\n                    out_file, xyz, vel, names, box, append=False\n                )", "                write_xyz_trajectory(out_file, xyz, vel, names, box, False)", "R-19.13", control=True, why="seeded C19_i"),
     K("c19-keep-append-flag-positional-in-place", CP2K, "                write_xyz_trajectory(\n                    out_file, xyz, vel, names, box, append=False\n                )", "                write_xyz_trajectory(out_file, xyz, vel, names, box, None, False)"),
     B("c19-requested-value-by-truthiness", ENGBASE, "                        if keyword_strip in settings:\n                            to_write = f\"{keyword} {settings[keyword_strip]}\\n\"", "                        new_value = settings.get(keyword_strip)\n                        if new_value:\n                            to_write = f\"{keyword} {new_value}\\n\"", "R-19.12", control=True, why="seeded C19_h"),
